@@ -12,7 +12,7 @@ RULE = ("explicit-state BFS over lifecycle histories of Hmac<D>, Poly1305, legac
         "the frontier is empty within 4 blocks and 2 resets; legacy digests are compared with the one-shot reference in every state"
         " Also: HMAC keys of exactly one block; the letter 'result into a buffer one byte short' (must refuse; afterwards a further result must refuse again or be right, reset revives); Digest::input_str for every legacy digest; component shards: C05's Poly1305 limb-steering / corner-state / crafted inputs; tree shards again on the checked-arithmetic build, graph shards of SHA-256 / BLAKE2 objects on the +avx and native builds."
         " Interference: one history per object type with the programs of every other object type (25 bystander programs: hash contexts, one-shots, MACs, legacy digests, stream ciphers, DRG, AEAD, KDFs, Argon2, X25519, Ed25519) woven between its steps, round-robin and whole-program-after-every-step."
-        " Many calls: 66000 one-byte / empty inputs on one object of every type, result, reset, reuse.")
+        " Big calls: one input of 8 / 9 / 16 / 17 / 33 whole blocks (+0 / +5 bytes) on every object type, fresh, after a short input and after reset, also on the vector builds. Many calls: 66000 one-byte / empty inputs on one object of every type, result, reset, reuse.")
 ASSUMPTIONS = ["reference hashes, RFC 2104 HMAC, big-integer Poly1305 as in C01/C05/C08", "nothing is required of an object after a panic unwound through it (the history of that object ends)",
                "a repeated result may either repeat the bytes or panic; any other value is a violation"]
 
@@ -25,6 +25,8 @@ def builds_needed(tier):
 def extra_builds(tier):
     def vec(fname, i):
         # the vector code is in the block functions: the graph shards (every partition of 4 blocks) of the digests that have one
+        if fname == "shard_bigcall":
+            return True
         if fname not in ("shard_graph", "shard_tree"):
             return False
         n = specs(tier)[i][0]
@@ -35,7 +37,7 @@ def extra_builds(tier):
 
     def chk(fname, i):
         # checked-arithmetic build: every lifecycle history of the tree shards
-        return fname in ("shard_tree", "shard_input_str")
+        return fname in ("shard_tree", "shard_input_str", "shard_bigcall")
     # the force-32bits feature is meant to switch the curve backend only; a cfg(feature) branch elsewhere would change MACs too
     return [("relchk", chk), ("avx", vec), ("native", vec), ("fe32", lambda f, a: f == "shard_tree" or f.endswith("_component") or f == "shard_input_str")]
 
@@ -231,7 +233,7 @@ def _mk(ck):
 def shards(tier):
     from props import c05
     n = len(specs(tier))
-    sh = [("shard_tree", i) for i in range(n)] + [("shard_graph", i) for i in range(n)] + [("shard_input_str", None), ("shard_interference", None)] + [("shard_many_calls", k) for k in range(6)]
+    sh = [("shard_tree", i) for i in range(n)] + [("shard_graph", i) for i in range(n)] + [("shard_input_str", None), ("shard_interference", None), ("shard_bigcall", None)] + [("shard_many_calls", k) for k in range(6)]
     # the value a Poly1305 object returns depends on rare accumulator states that no history alphabet reaches: C05's steering,
     # corner and crafted inputs run here as a component (first result of a fresh object)
     sh += [("shard_poly_component", ("shard_limbs", i)) for i in range(c05.NLIMB)] + [("shard_poly_component", ("shard_crafted", None))]
@@ -273,6 +275,28 @@ def shard_many_calls(part, tier):
         cases.append((["%snew s0 %s" % (pre, new), "%sinput_rep s0 %s %d" % (pre, P(5, 0, 1), n), "%sresult s0" % pre, "%sreset s0" % pre,
                        "%sinput_rep s0 h: %d" % (pre, n), "%sinput s0 %s" % (pre, P(5, 9, 3)), "%sinput_rep s0 h: 300" % pre, "%sresult s0" % pre],
                       ["-", "-", obs_of(mac(key0, one * n)), "-", "-", "-", "-", obs_of(mac(key0, tail))], None))
+    ck.run(cases)
+    ck.stats.states += len(cases)
+    return ck.stats
+
+
+def shard_bigcall(_, tier):
+    """one input call of many whole blocks (8, 9, 16, 17, 33 blocks, with and without a few extra bytes) on every object type, fresh,
+    after a short first input, and after result + reset: the multi-block paths underneath (8-way / 4-way batches and their
+    remainders) as an object user reaches them"""
+    ck = core.Checker(PROPERTY_ID)
+    _mk(ck)
+    cases = []
+    sp = [x for x in specs(tier) if not (x[2].startswith("hmac") and len(x[7]) != 5)]
+    for (name, api, new, B, clonable, which, D, key0, mac) in sp:
+        pre = "m" if api == "m" else "d"
+        for k in (8, 9, 16, 17, 33):
+            for extra in (0, 5):
+                n = k * B + extra
+                big = pat(5, 50, n)
+                cases.append((["%snew s0 %s" % (pre, new), "%sinput s0 %s" % (pre, P(5, 50, n)), "%sresult s0" % pre, "%sreset s0" % pre,
+                               "%sinput s0 %s" % (pre, P(5, 0, 3)), "%sinput s0 %s" % (pre, P(5, 50, n)), "%sresult s0" % pre],
+                              ["-", "-", obs_of(mac(key0, big)), "-", "-", "-", obs_of(mac(key0, pat(5, 0, 3) + big))], None))
     ck.run(cases)
     ck.stats.states += len(cases)
     return ck.stats
